@@ -177,6 +177,16 @@ let run_case (t : string list) : string =
     let os = List.map (fun x -> if x = "F" then CwFlush else if x = "-" then CwWrite [] else CwWrite (unhex x)) (String.split_on_char ',' ops) in
     let (rs, cs) = cw_trace { cw_cap = nat_of_int (int_of_string cap); cw_buf = [] } os in
     String.concat "," (List.map (fun n -> string_of_int (int_of_z n)) rs) ^ "|" ^ String.concat "," (List.map hex cs)
+  | ["wfail"; validate; anim; sep; budget; ns; fin] ->
+    (* writer history over a sink that refuses every chunk write after the first [budget] ("-" = healthy) *)
+    let c = { animated = (if anim = "-" then None else Some (nat_of_int (int_of_string anim))); sep_def = (sep = "1"); has_plte = false; anc_before = O; anc_after = O } in
+    let nl = if ns = "-" then [] else List.map (fun x -> nat_of_int (int_of_string x)) (String.split_on_char ',' ns) in
+    let b = if budget = "-" then None else Some (nat_of_int (int_of_string budget)) in
+    let (log, rs) = f_history (validate = "1") c b nl (fin = "1") in
+    String.concat " " (List.map (fun k -> match k with
+      | KACTL _ -> "acTL" | KFCTL q -> Printf.sprintf "fcTL:%d" (int_of_nat q) | KIDAT -> "IDAT"
+      | KFDAT q -> Printf.sprintf "fdAT:%d" (int_of_nat q) | KIEND -> "IEND" | KIHDR -> "IHDR" | KPLTE -> "PLTE" | KANC -> "anc") log)
+    ^ " | " ^ String.concat "," (List.map (fun r -> match r with FOk -> "ok" | FErrSink -> "sink" | FErrEndReached -> "end" | FErrMissingFrames -> "missing") rs)
   | ["writer"; anim; sep; plte; ns] ->
     let c = { animated = (if anim = "-" then None else Some (nat_of_int (int_of_string anim))); sep_def = (sep = "1"); has_plte = (plte = "1"); anc_before = O; anc_after = O } in
     let l = emitted c (List.map (fun x -> nat_of_int (int_of_string x)) (String.split_on_char ',' ns)) in
